@@ -191,6 +191,44 @@ def fd_matches(s, f, grads, tol=1e-6):
     return False, worst
 
 
+def flat_coords(s):
+    """every scalar parameter as (network index, parameter tensor, offset), in parameters() order"""
+    out = []
+    for ni, net in enumerate(s.networks):
+        k = 0
+        for p in getattr(s, net).parameters():
+            for e in range(p.numel()):
+                out.append((ni, k, p, e))
+                k += 1
+    return out
+
+
+def fd_spot_matches(s, f, grads, coords, tol=1e-6):
+    """like fd_matches, for a few coordinates (ni, k, p, e) only"""
+    worst = None
+    for h in (1e-4, 1e-3, 2e-5):
+        det = []
+        for (ni, k, p, e) in coords:
+            fl = p.data.view(-1)
+            x0 = fl[e].item()
+            vals = []
+            for x in (x0 + h, x0 - h, x0 + h / 2, x0 - h / 2):
+                fl[e] = x
+                vals.append(f())
+            fl[e] = x0
+            d = (4 * (vals[2] - vals[3]) / h - (vals[0] - vals[1]) / (2 * h)) / 3
+            g = np.asarray(grads[ni], dtype=float)
+            if k >= g.size:
+                return False, {"net": s.networks[ni], "param_index": k, "returned_size": int(g.size)}
+            lim = tol * max(1.0, float(np.max(np.abs(g))))
+            if not abs(d - g[k]) <= lim:
+                det.append({"net": s.networks[ni], "param_index": k, "finite_difference": float(d), "returned": float(g[k]), "h": h})
+        if not det:
+            return True, None
+        worst = worst or det
+    return False, worst
+
+
 # --------------------------------------------------------------------------- data sets
 def basis_list(ctx, nv):
     lim = 4 if ctx.thorough else 3
@@ -312,8 +350,90 @@ def oracle_case(ctx, s, kind, space, bases, samples, case, full_fd=True):
                            lambda: tlist(s.compute_exact_gradients(smp, space, bases_batch=nb)))
         if okc:
             ctx.require("Positive.compute_exact_gradients ignores bases", bool(np.allclose(Ec[0], EX[0], rtol=1e-9, atol=1e-11 * scale[0])), case)
+    bases_call_forms(ctx, s, kind, space, smp, bases, nb, case, G, PP, EX, scale)
     one_d_public_forms(ctx, s, kind, space, smp, nb, case)
     return G, PP, EX
+
+
+LIST_OF_STRINGS_MATCH = {"call": "gradient", "bases_form": "list of basis strings"}
+
+
+def close_all(A, Bv, sc):
+    return len(A) == len(Bv) and all(np.shape(a) == np.shape(b) and np.allclose(a, b, rtol=1e-9, atol=1e-11 * sc) for a, b in zip(A, Bv))
+
+
+def bases_call_forms(ctx, s, kind, space, smp, bases, nb, case, G, PP, EX, scale):
+    """The same batch / the same single row with the bases handed over in every encoding the docstring allows
+    (numpy.ndarray or list[str]): str / list / tuple / numpy row for the 1-D form; numpy matrix / list of lists /
+    tuple of tuples / list of tuples for a batch; and the reference-basis forms without bases (2-D and 1-D) for EVERY state
+    type.  Each must be callable and return the value of the canonical form."""
+    B = len(bases)
+    sc = max(scale)
+    rows = list(range(B))
+    rot = [i for i in rows if set(bases[i]) != {"Z"}]
+    withy = [i for i in rot if "Y" in bases[i]]
+    allz = [i for i in rows if set(bases[i]) == {"Z"}]
+    picks = []
+    for pool in (withy or rot, allz):
+        if pool:
+            picks.append(pool[int(ctx.rng.integers(0, len(pool)))])
+    # ---- 1-D form, reference basis, no bases argument (all state types)
+    i0 = (allz or rows)[0]
+    ok1, g1 = ctx.call("gradient 1-D form without bases", case, lambda: tlist(s.gradient(smp[i0])))
+    ok2, g2 = ctx.call("gradient batch of one row without bases", case, lambda: tlist(s.gradient(smp[i0:i0 + 1])))
+    if ok1 and ok2:
+        ctx.require("gradient(v) 1-D without bases == gradient of the batch of one row without bases", close_all(g1, g2, sc), case,
+                    {"row": i0, "shapes": [list(np.shape(x)) for x in g1]})
+    if kind == "positive":
+        return
+    # ---- 1-D form: encodings of the basis
+    for i in picks:
+        b = bases[i]
+        okr, ref = ctx.call("gradient 1-D form", case, lambda: tlist(s.gradient(smp[i], bases=nb[i])))
+        if not okr:
+            continue
+        for name, enc in (("str", b), ("list of letters", list(b)), ("tuple of letters", tuple(b)), ("numpy row", np.array(list(b)))):
+            ctx.count("bases_form_1d:" + name)
+            c2 = dict(case, bases_form=name, row=i)
+            okk, g = ctx.call("gradient 1-D form, bases given as " + name, c2, lambda: tlist(s.gradient(smp[i], bases=enc)))
+            if okk:
+                ctx.require("gradient 1-D form does not depend on the encoding of the basis", close_all(g, ref, sc), c2, {"basis": b})
+    # ---- batched form: encodings of the bases, all three public methods
+    forms = (("list of lists", [list(b) for b in bases]), ("tuple of tuples", tuple(tuple(b) for b in bases)),
+             ("list of tuples", [tuple(b) for b in bases]), ("numpy matrix (fresh copy)", np.array([list(b) for b in bases])))
+    for fi, (name, enc) in enumerate(forms):
+        ctx.count("bases_form_2d:" + name)
+        c2 = dict(case, bases_form=name)
+        okk, g = ctx.call("gradient, bases given as " + name, c2, lambda: tlist(s.gradient(smp, bases=enc)))
+        if okk:
+            ctx.require("gradient does not depend on the encoding of the bases", close_all(g, G, sc), c2)
+        if fi != ctx.evaluations % len(forms) and not ctx.thorough:      # quick tier: the other two methods take turns over the forms
+            continue
+        okk, g = ctx.call("positive_phase_gradients, bases given as " + name, c2, lambda: tlist(s.positive_phase_gradients(smp, bases_batch=enc)))
+        if okk:
+            ctx.require("positive_phase_gradients does not depend on the encoding of the bases", close_all(g, PP, sc), c2)
+        okk, g = ctx.call("compute_exact_gradients, bases given as " + name, c2, lambda: tlist(s.compute_exact_gradients(smp, space, bases_batch=enc)))
+        if okk:
+            ctx.require("compute_exact_gradients does not depend on the encoding of the bases", close_all(g, EX, sc), c2)
+    # ---- a batch given as a list of whole basis strings (["XY", "ZZ", ...]): recorded; required only when a known-findings
+    #      entry matching LIST_OF_STRINGS_MATCH is open (on /repo this form raises IndexError — reported to the integrator)
+    try:
+        g = tlist(s.gradient(smp, bases=list(bases)))
+        good = close_all(g, G, sc)
+        ctx.count("bases_form_2d:list of basis strings:" + ("agrees" if good else "differs"))
+    except Exception as e:
+        good = False
+        ctx.count("bases_form_2d:list of basis strings:raised_" + type(e).__name__)
+    if any(k.get("status") == "open" and all(k.get("match", {}).get(a) == b for a, b in LIST_OF_STRINGS_MATCH.items()) for k in ctx.known):
+        ctx.require("gradient accepts a batch of bases given as a list of basis strings", good, dict(case, **LIST_OF_STRINGS_MATCH))
+    # ---- other dtypes of the sample tensor: recorded only (the property does not fix a dtype; rotated bases need double on /repo)
+    import torch
+    for dt, nm in ((torch.float32, "float32"), (torch.int64, "int64")):
+        try:
+            g = tlist(s.gradient(smp.to(dt), bases=nb))
+            ctx.count("samples_dtype:%s:%s" % (nm, "agrees" if close_all(g, G, sc) else "differs"))
+        except Exception as e:
+            ctx.count("samples_dtype:%s:raised_%s" % (nm, type(e).__name__))
 
 
 ONE_D_MATCH = {"call": "positive_phase_gradients", "form": "1-D"}
@@ -552,12 +672,114 @@ def corr_state_level(ctx, s, kind, am, ph, space, bases, samples, case, impl):
         for k in range(2):
             ctx.agree("%s gradient 1-D form [%d]" % (kind, k), g1[k], m1[k], case, rtol=1e-6, atol=1e-8,
                       scale=max(1.0, float(np.max(np.abs(m1[k])))))
+    okk, g1n = ctx.call("gradient 1-D form without bases", case, lambda: tlist(s.gradient(smp[i])))
+    if okk:
+        m1n = m.call(fn, *am, *ph, bnum(["Z" * len(bases[0])]), [samples[i]], sp)[0]
+        for k in range(2):
+            ctx.agree("%s gradient 1-D form without bases [%d]" % (kind, k), g1n[k], m1n[k], case, rtol=1e-6, atol=1e-8,
+                      scale=max(1.0, float(np.max(np.abs(m1n[k])))))
     okk, g0 = ctx.call("gradient(bases=None)", case, lambda: tlist(s.gradient(smp)))
     if okk:
         m0 = m.call(fn, *am, *ph, bnum(["Z" * len(bases[0])] * len(bases)), samples, sp)[0]
         for k in range(2):
             ctx.agree("%s gradient(bases=None) [%d]" % (kind, k), g0[k], m0[k], case, rtol=1e-6, atol=1e-8,
                       scale=max(1.0, float(np.max(np.abs(m0[k])))))
+
+
+# --------------------------------------------------------------------------- histories on ONE state object
+def history_case(ctx, s, kind, space, bases, samples, case):
+    """C03 quantifies over every parameter setting and data set; a real training run evaluates the gradients of ONE object
+    again and again with the SAME `space` tensor.  After the full finite-difference comparison: a second, different batch
+    at the same parameters (fresh tensors, and the first batch's tensor / basis array overwritten in place), then the
+    parameters of the same object are moved by every mechanism a user / optimizer / loader has (.data = new tensor,
+    .data.copy_, load_state_dict, in-place add_ on the Parameter) and compute_exact_gradients (same `space` object) is
+    re-checked against finite differences of the NLL on several coordinates after each move."""
+    import torch
+    B = len(bases)
+    Ucache = {}
+    kwb = (lambda nbx: {}) if kind == "positive" else (lambda nbx: {"bases_batch": nbx})
+    coords_all = flat_coords(s)
+
+    def pick_coords():
+        out = [coords_all[0]]                                   # an amplitude weight: always touched by the negative phase
+        for ni in range(len(s.networks)):
+            mine = [c for c in coords_all if c[0] == ni]
+            for j in ctx.rng.choice(len(mine), size=min(2, len(mine)), replace=False):
+                out.append(mine[int(j)])
+        return out
+
+    def params_now():
+        return [[p.data.tolist() for p in getattr(s, net).parameters()] for net in s.networks]
+
+    def recheck(what, smp_t, nb_a, bs, sm, hist_so_far):
+        c2 = dict(case, history=list(hist_so_far), params_now=params_now(), bases=list(bs), samples=[list(r) for r in sm])
+        ok, ex = ctx.call("compute_exact_gradients (%s)" % what, c2, lambda: tlist(s.compute_exact_gradients(smp_t, space, **kwb(nb_a))))
+        if not ok:
+            return
+        # skip the comparison when an outcome became (numerically) impossible after the move: the NLL is singular there
+        if kind != "positive":
+            for b in set(bs):
+                pr = outcome_probs(s, kind, space, b, Ucache)
+                ix = [int(idx_of(r)[0]) for bb, r in zip(bs, sm) if bb == b]
+                if np.min(pr[ix]) < 1e-7:
+                    ctx.count("history_skipped_improbable_outcome")
+                    return
+        f = make_nll(s, kind, space, list(bs), [list(r) for r in sm], Ucache)
+        good, det = fd_spot_matches(s, f, ex, pick_coords())
+        ctx.count("history_step:" + what)
+        ctx.require("compute_exact_gradients == finite-difference gradient of the NLL (same object: %s)" % what, good, c2, det)
+
+    history = []
+    smp = torch.tensor(samples, dtype=torch.double)
+    nb = np_bases(bases)
+    # ---- a second, different batch at the same parameter setting
+    for _ in range(5):
+        sel = ctx.rng.integers(0, B, size=B)
+        if [(bases[i], samples[i]) for i in sel] != list(zip(bases, samples)):
+            break
+    bases2 = [bases[i] for i in sel]; samples2 = [samples[i] for i in sel]
+    if [(b, r) for b, r in zip(bases2, samples2)] != list(zip(bases, samples)):
+        history.append("second batch (fresh tensors), same parameters")
+        recheck(history[-1], torch.tensor(samples2, dtype=torch.double), np_bases(bases2), bases2, samples2, history)
+        history.append("second batch written into the first batch's tensor and basis array in place")
+        smp.copy_(torch.tensor(samples2, dtype=torch.double)); nb[...] = np_bases(bases2)
+        recheck(history[-1], smp, nb, bases2, samples2, history)
+        smp.copy_(torch.tensor(samples, dtype=torch.double)); nb[...] = np_bases(bases)
+    # ---- move the parameters of the same object
+    def deltas(rbm, name):
+        out = {}
+        for pn, p in rbm.named_parameters():
+            d = torch.tensor(ctx.rng.normal(scale=0.25, size=tuple(p.shape)), dtype=torch.double)
+            if kind == "dm" and name == "rbm_ph" and pn == "aux_bias":
+                d = torch.zeros_like(p.data)                # documented: the auxiliary bias of the phase network stays 0
+            out[pn] = d
+        return out
+
+    def move(mech):
+        for net in s.networks:
+            rbm = getattr(s, net)
+            d = deltas(rbm, net)
+            if mech == ".data = new tensor":
+                for pn, p in rbm.named_parameters():
+                    p.data = (p.data + d[pn]).clone()
+            elif mech == ".data.copy_":
+                for pn, p in rbm.named_parameters():
+                    p.data.copy_(p.data + d[pn])
+            elif mech == "load_state_dict":
+                sd = {k: v.clone() for k, v in rbm.state_dict().items()}
+                for pn in d:
+                    sd[pn] = sd[pn] + d[pn]
+                rbm.load_state_dict(sd)
+            else:
+                with torch.no_grad():
+                    for pn, p in rbm.named_parameters():
+                        p.add_(d[pn])
+    for mech in (".data = new tensor", ".data.copy_", "load_state_dict", "in-place add_ on the Parameter"):
+        okm, _ = ctx.call("moving the parameters by " + mech, dict(case, history=list(history)), lambda: move(mech))
+        if not okm:
+            return
+        history.append("parameters moved by " + mech)
+        recheck(history[-1], smp, nb, bases, samples, history)
 
 
 # --------------------------------------------------------------------------- one generated case
@@ -591,6 +813,8 @@ def one_case(ctx, kind, nv, nh, na, corr=True, given=None):
         corr_state_level(ctx, s, kind, am, ph, space, bases, samples, case, impl)
         corr_layout(ctx, s, kind, am, ph, case)
         diag_internals(ctx, s, kind, am, ph, space)
+    if impl is not None:
+        history_case(ctx, s, kind, space, bases, samples, case)      # last: it moves the parameters of s
     ctx.traces += 1
     ctx.count("completed:" + kind)
 
